@@ -12,6 +12,14 @@ def fn(x):
     return x * x
 
 
+def registry():
+    """the registered workers, whatever container the registry is kept in (list, set-like, or a mapping to the workers)"""
+    r = Worker._active_children
+    if hasattr(r, 'values') and callable(r.values):
+        return list(r.values())
+    return list(r)
+
+
 def main():
     sc = json.loads(sys.argv[1])
     obs = {}
@@ -24,8 +32,8 @@ def main():
     yielded = list(Worker.active_children())
     obs['yielded_dead'] = sum(1 for w in yielded if not w.is_alive())
     obs['yielded_live'] = sum(1 for w in yielded if w is live)
-    obs['registry_len_after_prune'] = len(Worker._active_children)
-    obs['registry_dead_retained'] = sum(1 for w in Worker._active_children if not w.is_alive())
+    obs['registry_len_after_prune'] = len(registry())
+    obs['registry_dead_retained'] = sum(1 for w in registry() if not w.is_alive())
     if obs['yielded_dead']:
         viol.append(f"active_children() yielded {obs['yielded_dead']} dead workers")
     if obs['registry_dead_retained']:
@@ -33,13 +41,13 @@ def main():
     if obs['yielded_live'] != 1:
         viol.append(f"live worker yielded {obs['yielded_live']} times")
     # L2: not-run workers and restarts are not registered
-    before = len(Worker._active_children)
+    before = len(registry())
     nr = ThreadWorker(fn, run=False)
-    obs['notrun_registered'] = sum(1 for w in Worker._active_children if w is nr)
+    obs['notrun_registered'] = sum(1 for w in registry() if w is nr)
     if obs['notrun_registered']:
         viol.append('a not-run worker was registered')
     live.restart(timeout=2)
-    obs['live_registered_times_after_restart'] = sum(1 for w in Worker._active_children if w is live)
+    obs['live_registered_times_after_restart'] = sum(1 for w in registry() if w is live)
     if obs['live_registered_times_after_restart'] != 1:
         viol.append(f"restarted worker registered {obs['live_registered_times_after_restart']} times")
     # L2c: a worker whose dead incarnation was pruned from the registry is registered again when it is restarted
@@ -49,11 +57,49 @@ def main():
     list(Worker.active_children())          # prunes the dead incarnation
     again.restart(timeout=2)
     obs['restarted_after_prune_alive'] = again.is_alive()
-    obs['restarted_after_prune_registered'] = sum(1 for w in Worker._active_children if w is again)
+    obs['restarted_after_prune_registered'] = sum(1 for w in registry() if w is again)
     if again.is_alive() and obs['restarted_after_prune_registered'] != 1:
         viol.append(f"a worker restarted after its dead incarnation had been pruned is registered {obs['restarted_after_prune_registered']} times: "
                     "active_children(), autoclose and the SIGTERM handler do not see the live worker")
     again.terminate(timeout=1)
+    # L2a: every worker that starts gets registered, whatever is (still) in the registry - in particular a dead, not yet pruned worker whose
+    # id (host, pid, thread id) the operating system has handed out again; and a worker nobody else refers to stays registered while it lives
+    import gc
+    import threading as _th
+    list(Worker.active_children())
+    seen_ids = set()
+    reused = None
+    for _ in range(200):
+        w = ThreadWorker(fn, args=(1,))
+        w.wait()
+        if w.id in seen_ids:
+            break
+        seen_ids.add(w.id)
+        nxt = PersistentThreadWorker(fn)
+        if nxt.id in seen_ids:
+            reused = nxt
+            break
+        seen_ids.add(nxt.id)
+        nxt.terminate(timeout=1)
+    obs['id_reused'] = reused is not None
+    if reused is not None:
+        obs['reused_id_registered'] = sum(1 for w in registry() if w is reused)
+        obs['reused_id_yielded'] = sum(1 for w in Worker.active_children() if w is reused)
+        if reused.is_alive() and (obs['reused_id_registered'] != 1 or obs['reused_id_yielded'] != 1):
+            viol.append(f"a live worker whose id equals that of a dead, not yet pruned worker is registered {obs['reused_id_registered']} times and "
+                        f"yielded {obs['reused_id_yielded']} times by active_children()")
+        reused.terminate(timeout=1)
+    n0 = sum(1 for w in Worker.active_children())
+    PersistentThreadWorker(fn)                     # no reference kept by the caller
+    gc.collect()
+    anon = [w for w in Worker.active_children()]
+    obs['unreferenced_live_yielded'] = len(anon) - n0
+    if len(anon) - n0 != 1 and _th.active_count() > 1:
+        viol.append(f'a live worker the caller keeps no reference to is yielded {len(anon) - n0} times by active_children() while its thread runs')
+    for w in anon:
+        if w is not live:
+            w.terminate(timeout=1)
+    del anon
     # L1 under interference: another thread registers a worker at the first moment the registry lock is free during
     # active_children() (a legal schedule, forced here by a lock wrapper of the harness): the registration must survive
     class SpyLock:
@@ -81,7 +127,7 @@ def main():
     spy.on_release = lambda: late.append(PersistentThreadWorker(fn))
     list(Worker.active_children())
     Worker._children_lock = spy.inner
-    obs['registered_during_prune_survives'] = bool(late) and sum(1 for w in Worker._active_children if w is late[0])
+    obs['registered_during_prune_survives'] = bool(late) and sum(1 for w in registry() if w is late[0])
     if late and obs['registered_during_prune_survives'] != 1:
         viol.append('a worker registered by another thread while active_children() was pruning is missing from the registry afterwards '
                     f"(registered {obs['registered_during_prune_survives']} times)")
